@@ -370,8 +370,11 @@ macro_rules! with_shape {
             22 => $m!($crate::shapes::S7),
             23 => $m!(UnsizedList<$crate::shapes::E1>),
             24 => $m!($crate::shapes::S8),
+            // keyed containers whose items have forbidden bit patterns (parse / encode properties only)
+            25 => $m!(Map<u8, bool, u8>),
+            26 => $m!(Set<bool, u8>),
             _ => panic!("unknown shape"),
         }
     };
 }
-pub const N_SHAPES: i128 = 25;
+pub const N_SHAPES: i128 = 27;
